@@ -24,7 +24,7 @@ impl Prop for C08 {
         "C08"
     }
     fn rule(&self) -> String {
-        "cases = one prepared statement declaring 0-600 parameters (counts biased to 0, 1, 7, 8, 9, 15-17, 63-65, 255-257, 600) executed 1-3 times with the new-params-bound flag set; per parameter a bound type from every code the protocol defines a binary encoding for (27 codes) x unsigned flag; integer bit patterns over full widths, all float bit patterns incl. infinities, byte strings across the length-encoding classes, every legal length form of DATE (0/4), DATETIME/TIMESTAMP (0/4/7/11) and TIME (0/8/12, incl. negative), MYSQL_TYPE_NULL, arbitrary NULL-bitmap patterns. Oracle: the shim's list has the declared length and per entry the bound type code, the exact ValueInner, and - where the Rust target type can represent the value (not the zero date, not negative TIME, not NaN) - the conversion result equals the encoded value. Non-trivial = >= 9 parameters (second bitmap byte) or an unsigned / narrow / temporal type.".into()
+        "cases = one prepared statement declaring 0-600 parameters (counts biased to 0, 1, 7, 8, 9, 15-17, 63-65, 255-257, 600) executed 1-3 times with the new-params-bound flag set (later executions either bind fresh types or keep the type codes and flip some signedness flags); per parameter a bound type from every code the protocol defines a binary encoding for (27 codes) x unsigned flag; integer bit patterns over full widths, all float bit patterns incl. infinities, byte strings across the length-encoding classes, every legal length form of DATE (0/4), DATETIME/TIMESTAMP (0/4/7/11) and TIME (0/8/12, incl. negative), MYSQL_TYPE_NULL, arbitrary NULL-bitmap patterns. Oracle: the shim's list has the declared length and per entry the bound type code, the exact ValueInner, and - where the Rust target type can represent the value (not the zero date, not negative TIME, not NaN) - the conversion result equals the encoded value. Non-trivial = >= 9 parameters (second bitmap byte) or an unsigned / narrow / temporal type.".into()
     }
     fn assumptions(&self) -> Vec<String> {
         vec!["the recording shim iterates all parameters, as every caller in the repository does".into()]
@@ -45,7 +45,25 @@ impl Prop for C08 {
     fn gen(&self, g: &mut G<'_>, _tier: Tier) -> Case {
         let n = gen_nparams(g);
         let nexec = if n > 100 { 1 } else { g.usize_in(1, 3) };
-        let execs = (0..nexec).map(|_| (0..n).map(|_| gen_param(g)).collect()).collect();
+        let mut execs: Vec<Vec<Param>> = Vec::new();
+        for k in 0..nexec {
+            if k > 0 && g.chance(1, 2) {
+                // re-execution that keeps most of the previous binding: same type codes, some
+                // signedness flags flipped, fresh values (what a client does when only the values
+                // or the signedness of a bound variable change)
+                let prev = execs[k - 1].clone();
+                let e = prev
+                    .iter()
+                    .map(|p| {
+                        let unsigned = if g.chance(1, 3) { !p.unsigned } else { p.unsigned };
+                        gen_param_of(g, p.coltype, unsigned, true)
+                    })
+                    .collect();
+                execs.push(e);
+            } else {
+                execs.push((0..n).map(|_| gen_param(g)).collect());
+            }
+        }
         Case { id: if g.chance(1, 5) { g.raw() } else { 1 }, execs }
     }
     fn exec(&self, case: &Case) -> Exec {
